@@ -17,7 +17,9 @@ impl<const N: usize> MConcat for [Vec<u8>; N] { fn mconcat(&self) -> Vec<u8> { l
 /// Every index key of the model continues its search prefix by at most 2 + 17 = 19 bytes, so FF_MODEL = 19 bytes of 0xff compare
 /// against every model key exactly as 65533+ bytes do; a SMALLER n is kept as it is.
 pub const FF_MODEL: usize = 19;
-pub fn ff_fill(n: usize) -> Vec<u8> { let mut v = Vec::new(); let m = if n < FF_MODEL { n } else { FF_MODEL }; let mut i = 0; while i < m { v.push(0xff); i += 1; } v }
+/// ghost: the fill length the real text asked for (the model truncates it; the harness states the bound on the REQUESTED length)
+pub static mut FF_REQUESTED: Option<usize> = None;
+pub fn ff_fill(n: usize) -> Vec<u8> { unsafe { FF_REQUESTED = Some(n); } let mut v = Vec::new(); let m = if n < FF_MODEL { n } else { FF_MODEL }; let mut i = 0; while i < m { v.push(0xff); i += 1; } v }
 
 #[derive(Clone, Copy, Debug, Default, PartialEq, Eq)] pub struct String;
 pub struct Error;
@@ -121,7 +123,7 @@ pub const VCAP: usize = 41;
 impl std::ops::Deref for ValB { type Target = [u8]; fn deref(&self) -> &[u8] { &self.b[..self.len] } }
 impl ValB { pub fn of(s: &[u8]) -> ValB { let mut b = [0u8; VCAP]; b[..s.len()].copy_from_slice(s); ValB { b, len: s.len() } } }
 #[derive(Clone, Copy)] pub struct Row { pub key: Vec<u8>, pub tx: u8 }
-pub struct World { pub rows: [Row; NROWS], pub nrows: usize, pub txs: [TxModel; NTX], pub tx_number: [u64; NTX], pub tx_index: [u32; NTX], pub tip: Header, pub tip_stored: bool }
+pub struct World { pub rows: [Row; NROWS], pub nrows: usize, pub txs: [TxModel; NTX], pub tx_number: [u64; NTX], pub tx_index: [u32; NTX], pub tip: Header, pub tip_stored: bool, pub live_tip: Header }
 pub static mut WORLD: Option<World> = None;
 fn words(v: &Vec<u8>) -> (u128, u64) { let mut a = [0u8; 16]; a.copy_from_slice(&v.buf[0..16]); let mut b = [0u8; 8]; b.copy_from_slice(&v.buf[16..24]); (u128::from_be_bytes(a), u64::from_be_bytes(b)) }
 /// bytewise lexicographic order (RocksDB's default comparator); buffers are zero-padded, so padded words + length decide
@@ -201,6 +203,9 @@ impl Snapshot {
 }
 pub struct Db; impl Db { pub fn snapshot(&self) -> Snapshot { Snapshot } }
 pub struct Storage { pub db: Db }
+/// the LIVE store (not the snapshot the query iterates): another thread may have moved the tip since the snapshot was taken, so what it returns is ARBITRARY
+impl Storage { pub fn get_tip_header(&self) -> Header { unsafe { WORLD.as_ref().unwrap().live_tip } } pub fn get_last_state(&self) -> (U256Dummy, Header) { (U256Dummy, self.get_tip_header()) } }
+pub struct U256Dummy;
 pub struct Swc { pub st: Storage } impl Swc { pub fn storage(&self) -> &Storage { &self.st } }
 pub struct BlockFilterRpcImpl { pub(crate) swc: Swc }
 
